@@ -1367,6 +1367,40 @@ def extract_c06():
         ty, ml = queue_of(attr)
         L.append(f"def {name}_type : String := {lean_str(ty)}")
         L.append(f"def {name}_maxlen : Option Nat := {'none' if ml is None else 'some %d' % int(ml)}")
+    # two Connection objects of two different transfers (two owners, two transit keys), both negotiated: the attributes
+    # (set on the instance or found on the wormhole classes) through which both reach ONE AND THE SAME mutable object.
+    # A per-connection model has nothing to say about such an object.
+    def shared_between_connections():
+        try:
+            conns = []
+            for i in (1, 2):
+                owner = tr.TransitSender.__new__(tr.TransitSender)
+                owner._transit_key = bytes([i]) * 32
+                c = tr.Connection(owner, None, 0.0, "")
+                c._negotiationSuccessful()
+                conns.append(c)
+            a, b = conns
+            names = set(vars(a)) | set(vars(b))
+            for klass in type(a).__mro__:
+                if (klass.__module__ or "").startswith("wormhole"):
+                    names |= set(vars(klass))
+            out = []
+            missing = object()
+            for n in sorted(names):
+                if n.startswith("__"):
+                    continue
+                va, vb = getattr(a, n, missing), getattr(b, n, missing)
+                if va is missing or va is not vb or callable(va):
+                    continue
+                if isinstance(va, (int, float, complex, str, bytes, bool, type(None), tuple, frozenset, type, type(ast))):
+                    continue
+                out.append(n)
+            return out
+        except Exception as e:
+            return ["<two connections could not be built: %s>" % type(e).__name__]
+    L.append("/-- attributes through which two negotiated `Connection` objects of different transfers reach one and the same "
+             "mutable object -/")
+    L.append("def shared_between_connections : List String := [" + ", ".join(lean_str(x) for x in shared_between_connections()) + "]")
     # connectConsumer: is `consumer.registerProducer(...)` called before `self._consumer` is assigned?  (a consumer may
     # resume its producer from registerProducer(); what that yields must be queued, not written past the queue)
     def registers_before_attach():
